@@ -44,13 +44,19 @@ def gen (ρ : Rep n R) (g : Gen) : M? (DMat n n R) :=
   | some A => .ok A
   | none => .error "KeyError"
 
+/-- loop body of `_word_value`: `matrix = matrix @ self.generators[gen]` -/
+def wordStep (ρ : Rep n R) (acc : M? (DMat n n R)) (g : Gen) : M? (DMat n n R) := do
+  let a ← acc
+  let b ← ρ.gen g
+  pure (a.mul b)
+
 /-- `Representation._word_value` after `parse_word`:
 ```
 matrix = utils.identity(self._dim)
 for gen in gen_list: matrix = matrix @ self.generators[gen]
 ``` -/
 def wordValue (ρ : Rep n R) (w : Word) : M? (DMat n n R) :=
-  w.foldl (fun acc g => do let a ← acc; let b ← ρ.gen g; pure (a.mul b)) (.ok DMat.one)
+  w.foldl ρ.wordStep (.ok DMat.one)
 
 /-- `rep.element(s, parse_simple=None)` (repaired default) / `rep._word_value(s)` on a Python
 string: `parse_word(word, simple)` with `simple = self.parse_simple` when `None` -/
